@@ -4,7 +4,9 @@
 For every /verif/seeded/<id>/: (1) confirm the change in a scratch worktree of /repo HEAD (the 38-test baseline still passes with it,
 demo.py exits 0 without and non-zero with it), (2) apply patch.diff to /repo itself, run the quick check of every property named in
 meta.json "checks", and revert /repo (git checkout -- .).  Nothing is ever committed in /repo.  Evidence and replay files of these runs are written under /tmp/seeded_out (VERIF_OUT).
-usage: python3 tools/run_seeded.py [id-regex]      -> writes seeded/RESULTS.json and prints one line per (seed, check)"""
+usage: python3 tools/run_seeded.py [id-regex]      -> writes seeded/RESULTS.json and prints one line per (seed, check)
+With SEEDED_IN_WORKTREE=1 step (2) runs the checks against the scratch worktree carrying the change (VERIF_REPO) and /repo is not
+touched at all - for runs that must not disturb other work on /repo.  SEEDED_RESULTS=<file> writes the results elsewhere."""
 import json, os, re, subprocess, sys, tempfile, time
 
 ROOT = os.path.dirname(os.path.dirname(os.path.abspath(__file__)))
@@ -17,9 +19,10 @@ def sh(cmd, **kw):
 
 def main():
     pat = re.compile(sys.argv[1]) if len(sys.argv) > 1 else None
-    res_path = os.path.join(ROOT, "seeded", "RESULTS.json")
+    res_path = os.environ.get("SEEDED_RESULTS") or os.path.join(ROOT, "seeded", "RESULTS.json")
+    in_wt = os.environ.get("SEEDED_IN_WORKTREE") == "1"
     results = json.load(open(res_path)) if os.path.exists(res_path) else {}
-    if sh(f"git -C {REPO} status --porcelain").stdout.strip():
+    if not in_wt and sh(f"git -C {REPO} status --porcelain").stdout.strip():
         print("refusing to run: /repo has uncommitted changes")
         return 2
     for sid in sorted(os.listdir(os.path.join(ROOT, "seeded"))):
@@ -40,21 +43,29 @@ def main():
             tests = sh("/venv/bin/python -m pytest -q -p no:cacheprovider websocket/tests 2>&1 | tail -1", cwd=wt).stdout.strip()
             mut = sh(f"PYTHONPATH={wt} timeout 180 /venv/bin/python {sd}/demo.py", cwd=wt).returncode
         finally:
-            sh(f"git -C {REPO} worktree remove --force {wt}")
+            if not in_wt or ap.returncode:
+                sh(f"git -C {REPO} worktree remove --force {wt}")
         entry = dict(applies=True, demo_clean_exit=clean, demo_changed_exit=mut, tests_with_change=tests, checks={})
-        sh(f"git -C {REPO} apply {sd}/patch.diff")
+        if not in_wt:
+            sh(f"git -C {REPO} apply {sd}/patch.diff")
+        tree = wt if in_wt else REPO
+        out_dir = f"/tmp/seeded_out_{os.getpid()}"
         try:
             for pid in meta.get("checks", meta["breaks"]):
                 t0 = time.time()
                 # VERIF_OUT: evidence and replays of these runs on a changed tree go to a scratch directory, not into /verif
-                r = sh(f"VERIF_OUT=/tmp/seeded_out PYTHONDONTWRITEBYTECODE=1 PYTHONPATH={ROOT}:{REPO} timeout 1800 python3-vt -m pyvc.check --property {pid} --tier quick", cwd=ROOT)
+                r = sh(f"VERIF_REPO={tree} VERIF_OUT={out_dir} PYTHONDONTWRITEBYTECODE=1 PYTHONPATH={ROOT}:{tree} timeout 1800 python3-vt -m pyvc.check --property {pid} --tier quick", cwd=ROOT)
                 viol = [l for l in r.stdout.splitlines() if l.startswith("VIOLATION")]
                 und = [l[:200] for l in r.stdout.splitlines() if l.startswith("UNDECIDED")]
                 entry["checks"][pid] = dict(exit=r.returncode, violations=len(viol), with_failing_input=sum(1 for l in viol if not l.endswith("no-failing-input-found")),
                                             first=[re.sub(r".*replay=\S*/replays/", "", l)[:160] for l in viol[:3]], undecided=und[:2], wall_s=round(time.time() - t0, 1))
                 print(f"{sid} {pid}: exit={r.returncode} violations={len(viol)} demo clean/changed={clean}/{mut} tests: {tests[:20]}", flush=True)
         finally:
-            sh(f"git -C {REPO} checkout -- .")
+            if in_wt:
+                sh(f"git -C {REPO} worktree remove --force {wt}")
+            else:
+                sh(f"git -C {REPO} checkout -- .")
+            sh(f"rm -rf {out_dir}")
         results[sid] = entry
         json.dump(results, open(res_path, "w"), indent=1, sort_keys=True)
     return 0
